@@ -353,6 +353,10 @@ func (l *Linter) LintFiles(filepaths []string, project *Project) ([]*Error, erro
 			// Before entering goroutine, resolve project instance.
 			p, err := l.projects.At(w.path)
 			if err != nil {
+				// Goroutines were already started for the previous files. Do not leave them (and
+				// the processes they run) behind
+				eg.Wait() //nolint:errcheck
+				proc.wait()
 				return nil, err
 			}
 			proj = p
